@@ -70,7 +70,9 @@ def scenarios(cases):
         script = [P.W("started"), P.W("idle")]
         for k in c["cmds"]:
             script.append(P.DO("send", msg=P.B(k)))
-        script += [P.W("idle"), P.DO("quit"), P.W("returned")]
+        # ... and once more after the renderer has had time to paint frames (a frame must not disturb the modes)
+        script += [P.W("idle"), P.DO("sleep", us=40000), P.DO("send", msg=P.U(77)), P.DO("sleep", us=30000), P.W("idle"), P.DO("send", msg=P.U(78)), P.W("idle"),
+                   P.DO("quit"), P.W("returned")]
         scs.append(P.scenario(i, script, opts=dict(c["opts"], fps=120), parallel_ok=True, watchdog_ms=3000))
     return scs
 
@@ -121,6 +123,20 @@ def run(res, tier, seed):
     bad_model, _ = C.coq_eval_sharded("cases_C12m", PRE, rows, rows_def, body, "bad_model", shard=150)
     res.oblige("Spec on real output (Coq: Spec.Modes.apply over the real mode tokens sampled at every Update, both cursor conventions), %d programs" % len(cases),
                not bad_spec, [cases[i] for i in bad_spec[:2]])
+    # the same after frames have been painted: sampled at a later, unrelated Update
+    rows3 = []
+    for i, (c, r) in enumerate(zip(cases, results)):
+        u78 = next((e for e in r["events"] if e["ev"] == "UpdateBegin" and e.get("key") == "u:78"), None)
+        if u78 is None:
+            continue
+        rows3.append("(%d%%N, %s, %s, %s)" % (i, coq_opts(c["opts"]), "[" + "; ".join(CMD[k] for k in c["cmds"]) + "]", P.coq_mode_toks(P.mode_tokens(bytes(r["output"])[:u78["outlen"]]))))
+    rows3_def = "Definition rows3 : list (N * opts * list modecmd * list tok) := [%s]."
+    body3 = ["Definition settled_ok (x : N * opts * list modecmd * list tok) : bool := let '(_, o, cmds, ks) := x in "
+             "forallb (fun sh => modes_eqb (vt_modes (vt_run sh (vt_init 80 24 [] 0) ks)) (fold_left apply cmds (apply_opts o))) [true; false].",
+             "Definition bad_settled := map (fun x => fst (fst (fst x))) (filter (fun x => negb (settled_ok x)) rows3)."]
+    bad_settled, _ = C.coq_eval_sharded("cases_C12t", PRE, rows3, rows3_def, body3, "bad_settled", shard=150)
+    res.oblige("Spec on real output: the modes are still those of options+commands after frames have been painted (sampled at a later Update), %d programs" % len(rows3),
+               not bad_settled and len(rows3) == len(cases), [cases[i] for i in bad_settled[:2]])
     res.oblige("K2: L0 model mode tokens (generated dispatch + start-up lists) = the real program's, %d programs" % len(cases), not bad_model,
                [cases[i] for i in bad_model[:2]])
     # main screen untouched: full real token stream through the Coq terminal
@@ -141,6 +157,12 @@ def run(res, tier, seed):
     res.oblige("Spec on real output: an alt-screen program that never leaves it does not alter the main-screen rows above the cursor (%d programs, full token stream through Model/VT)" % len(mains),
                not bad_main and not untok, [cases[i] for i in (bad_main + untok)[:2]])
     found = False
+    for i in bad_settled[:1]:
+        c, r = cases[i], results[i]
+        u78 = next(e for e in r["events"] if e["ev"] == "UpdateBegin" and e.get("key") == "u:78")
+        res.violation("C12:modes-after-frames", "after frames had been painted the terminal modes differ from options+commands (options %s, commands %s): %s" %
+                      (c["opts"], c["cmds"], P.final_modes(P.mode_tokens(bytes(r["output"])[:u78["outlen"]]))), {"case": c})
+        found = True
     for i in bad_spec[:1]:
         c, r = cases[i], results[i]
         ups = [e for e in r["events"] if e["ev"] == "UpdateBegin" and e.get("key", "").startswith("b:")]
